@@ -15,10 +15,10 @@ Inductive toktype :=
 (* error tokens carry a kind instead of the formatted text *)
 Inductive lexerr := LEUnexpectedChar | LEBadSize | LEUnclosedString | LEBadNumber.
 
-Record token := { t_typ : toktype; t_val : bytes; t_off : nat; t_err : option lexerr }.
+Record token := { t_typ : toktype; t_val : bytes; t_off : Z; t_err : option lexerr }.   (* t_off: byte offset (binary: a unary offset per token makes the extracted lexer quadratic) *)
 
-Definition mk (ty : toktype) (v : bytes) (off : nat) : token := {| t_typ := ty; t_val := v; t_off := off; t_err := None |}.
-Definition mkerr (e : lexerr) (v : bytes) (off : nat) : token := {| t_typ := TError; t_val := v; t_off := off; t_err := Some e |}.
+Definition mk (ty : toktype) (v : bytes) (off : Z) : token := {| t_typ := ty; t_val := v; t_off := off; t_err := None |}.
+Definition mkerr (e : lexerr) (v : bytes) (off : Z) : token := {| t_typ := TError; t_val := v; t_off := off; t_err := Some e |}.
 
 (* ---- character classes ---- *)
 Definition bz (b : byte) : Z := b2z b.
@@ -258,34 +258,36 @@ Definition lex_quoted (s : bytes) : option (bytes * bytes) :=
 
 Inductive lstate := LHeader | LText.
 
-Fixpoint lex_from (fuel : nat) (st : lstate) (s : bytes) (off : nat) : list token :=
+Definition zlen (s : bytes) : Z := Z.of_nat (length s).
+
+Fixpoint lex_from (fuel : nat) (st : lstate) (s : bytes) (off : Z) : list token :=
   match fuel with
   | O => []
   | S f =>
-    let continue_ st' (tok : token) (r : bytes) := tok :: lex_from f st' r (off + length (t_val tok))%nat in
-    let skip (n : nat) := lex_from f st (skipn n s) (off + n)%nat in
+    let continue_ st' (tok : token) (r : bytes) := tok :: lex_from f st' r (off + zlen (t_val tok)) in
+    let skip (n : nat) := lex_from f st (skipn n s) (off + Z.of_nat n) in
     if starts_with slashes s then
       let '(c, r, at_end) := lex_comment s in
-      mk TComment c off :: (if at_end then [mk TEOF (B"EOF"%string) (off + length c)%nat]
-                            else lex_from f st r (off + length c)%nat)
+      mk TComment c off :: (if at_end then [mk TEOF (B"EOF"%string) (off + zlen c)]
+                            else lex_from f st r (off + zlen c))
     else
     match st with
     | LHeader =>
       match match_sf s with
-      | Some (m, r) => mk TStreamFunction (to_upper m) off :: lex_from f LHeader r (off + length m)%nat
+      | Some (m, r) => mk TStreamFunction (to_upper m) off :: lex_from f LHeader r (off + zlen m)
       | None =>
       match match_wbit s with
-      | Some (m, r) => mk TWaitBit (to_upper m) off :: lex_from f LHeader r (off + length m)%nat
+      | Some (m, r) => mk TWaitBit (to_upper m) off :: lex_from f LHeader r (off + zlen m)
       | None =>
       match match_dir s with
-      | Some (m, r) => mk TDirection (to_upper m) off :: lex_from f LHeader r (off + length m)%nat
+      | Some (m, r) => mk TDirection (to_upper m) off :: lex_from f LHeader r (off + zlen m)
       | None =>
         match s with
         | [] => [mk TEOF (B"EOF"%string) off]
         | b :: r =>
           if is_ws b then skip 1%nat
-          else if byte_eqb b x2e then mk TMsgEnd [b] off :: lex_from f LHeader r (S off)
-          else if byte_eqb b x3c then mk TLAB [b] off :: lex_from f LText r (S off)
+          else if byte_eqb b x2e then mk TMsgEnd [b] off :: lex_from f LHeader r (off + 1)
+          else if byte_eqb b x3c then mk TLAB [b] off :: lex_from f LText r (off + 1)
           else
             let '(r0, w0) := decode_rune s in
             if is_space_rune r0 then skip w0
@@ -304,20 +306,20 @@ Fixpoint lex_from (fuel : nat) (st : lstate) (s : bytes) (off : nat) : list toke
                        end
                      end) (length s) (skipn w0 s) in
               let full := firstn w0 s ++ name in
-              mk TMsgName full off :: lex_from f LHeader (skipn (length full) s) (off + length full)%nat
+              mk TMsgName full off :: lex_from f LHeader (skipn (length full) s) (off + zlen full)
         end
       end end end
     | LText =>
       match match_ellipsis s with
-      | Some (m, r) => mk TEllipsis m off :: lex_from f LText r (off + length m)%nat
+      | Some (m, r) => mk TEllipsis m off :: lex_from f LText r (off + zlen m)
       | None =>
       match match_ident s with
       | Some (m, r) =>
         let u := to_upper m in
-        if mem_bytes u item_types then mk TItemType u off :: lex_from f LText r (off + length m)%nat
-        else if bytes_eqb u [x54] || bytes_eqb u [x46] then mk TBool u off :: lex_from f LText r (off + length m)%nat
+        if mem_bytes u item_types then mk TItemType u off :: lex_from f LText r (off + zlen m)
+        else if bytes_eqb u [x54] || bytes_eqb u [x46] then mk TBool u off :: lex_from f LText r (off + zlen m)
         else let '(ix, r') := match_indices (length r) r in
-             mk TVariable (m ++ ix) off :: lex_from f LText r' (off + length m + length ix)%nat
+             mk TVariable (m ++ ix) off :: lex_from f LText r' (off + zlen m + zlen ix)
       | None =>
         match s with
         | [] => [mk TEOF (B"EOF"%string) off]
@@ -326,19 +328,19 @@ Fixpoint lex_from (fuel : nat) (st : lstate) (s : bytes) (off : nat) : list toke
                           (byte_eqb b x2e && match r with d :: _ => is_digit d | [] => false end) in
           if numstart then
             let '(txt, r', ok) := lex_number s in
-            if ok then mk TNumber txt off :: lex_from f LText r' (off + length txt)%nat
+            if ok then mk TNumber txt off :: lex_from f LText r' (off + zlen txt)
             else [mkerr LEBadNumber txt off]
-          else if byte_eqb b x3c then mk TLAB [b] off :: lex_from f LText r (S off)
-          else if byte_eqb b x3e then mk TRAB [b] off :: lex_from f LText r (S off)
-          else if byte_eqb b x2e then mk TMsgEnd [b] off :: lex_from f LHeader r (S off)
+          else if byte_eqb b x3c then mk TLAB [b] off :: lex_from f LText r (off + 1)
+          else if byte_eqb b x3e then mk TRAB [b] off :: lex_from f LText r (off + 1)
+          else if byte_eqb b x2e then mk TMsgEnd [b] off :: lex_from f LHeader r (off + 1)
           else if byte_eqb b x5b then
             match lex_size s with
-            | Some (raw, r') => mk TItemSize (remove_spaces raw) off :: lex_from f LText r' (off + length raw)%nat
+            | Some (raw, r') => mk TItemSize (remove_spaces raw) off :: lex_from f LText r' (off + zlen raw)
             | None => [mkerr LEBadSize [] off]
             end
           else if byte_eqb b x22 then
             match lex_quoted s with
-            | Some (q, r') => mk TQuoted q off :: lex_from f LText r' (off + length q)%nat
+            | Some (q, r') => mk TQuoted q off :: lex_from f LText r' (off + zlen q)
             | None => [mkerr LEUnclosedString [] off]
             end
           else if is_ws b then skip 1%nat
@@ -361,6 +363,6 @@ Fixpoint last_line (s : bytes) (cur : bytes) : bytes :=      (* the text after t
   | b :: r => if byte_eqb b x0a then last_line r [] else last_line r (b :: cur)
   end.
 
-Definition linecol (input : bytes) (off : nat) : Z * Z :=
-  let pre := firstn off input in
+Definition linecol (input : bytes) (off : Z) : Z * Z :=
+  let pre := firstn (Z.to_nat off) input in
   (1 + Z.of_nat (count_lf pre), 1 + Z.of_nat (length (runes (last_line pre [])))).
